@@ -58,6 +58,9 @@ func harnessOverlay(native bool) (map[string][]byte, error) {
 		}
 		return nil
 	})
+	for k, v := range extraOverlay {
+		ov[k] = v
+	}
 	return ov, err
 }
 
